@@ -111,3 +111,99 @@ From BT Require Generated.Consts Model.Entry_C15.
 Check (C15.C15_constants_from_source :
   Entry_C15.MAX_BW_FDS = 976%nat /\ (2 <= Entry_C15.MAX_BW_FDS)%nat /\
   MergeTool.s_dot_bw = Consts.MERGE_SUFFIX_BW /\ MergeTool.s_dot_bigwig = Consts.MERGE_SUFFIX_BIGWIG /\ MergeTool.s_dot_bedgraph = Consts.MERGE_SUFFIX_BEDGRAPH).
+
+
+(* ---- the merge tool on files (appended; Proofs/MergeToolFile.v): statements and the definitions they rest on ---- *)
+From BT Require Base.Float Model.BBIFile Model.BigWigWrite Model.BBIRead Proofs.RTreeCodec Proofs.BigWigQuery Proofs.BigWigFileChroms
+  Proofs.BigWigFileRoundTrip Proofs.BigWigFileInput Proofs.MergeToolFile.
+Module PinC15File.
+Import Model.Merge Model.MergeTool Proofs.MergeSig Proofs.FillOk Proofs.MergeToolOk Proofs.MergeToolRun Properties.C15.
+Local Open Scope N_scope.
+Check (C15_file_view : forall fp o sizes inp bs,
+  BigWigFileRoundTrip.opts_ok o -> BigWigFileRoundTrip.input_ok sizes inp -> Nlen bs < RTreeCodec.U64 ->
+  BigWigWrite.bw_write fp o sizes inp = Ok bs \/ BigWigWrite.bw_write_multipass fp o sizes inp = Ok bs ->
+  forall num infl,
+  MergeToolFile.file_view num infl bs =
+  Ok (map (fun c => (c, BigWigFileChroms.len_of sizes c,
+                     map (MergeToolFile.conv num)
+                       (filter (fun v => negb (BigWigQuery.boundary_zero (BigWigFileChroms.len_of sizes c) v))
+                          (BigWigFileInput.vals_of inp c))))
+          (BigWigFileInput.first_app (map fst inp)))).
+Check (C15_tool_inputs_of_files : forall num infl wl bss, Forall2 MergeToolFile.written wl bss ->
+  MergeToolFile.tool_inputs_of_files num infl bss = Ok (MergeToolFile.read_files num wl)).
+Check (C15_tool_files : forall W maxfds num infl wl bss thr adj clip ty name,
+  0 < W -> (2 <= maxfds)%nat -> Forall2 MergeToolFile.written wl bss ->
+  Forall (fun w => MergeToolFile.zero_only_at_boundary (MergeToolFile.wi_sizes w) (MergeToolFile.wi_inp w)) wl ->
+  let files := MergeToolFile.read_files num wl in
+  MergeToolFile.tool_inputs_of_files num infl bss = Ok files /\
+  (forall f c, In f files -> In c f -> query (snd c) 0 (snd (fst c)) = snd c) /\
+  ((exists table,
+      chrom_table (all_names files) files [] = Ok table /\
+      Forall (fun e => snd e = chrom_inputs (fst (fst e)) files) table /\
+      (forall w c, In w wl -> In c (map fst (MergeToolFile.wi_inp w)) -> bt_has c table = true) /\
+      match detect_output ty name with
+      | None => MergeToolFile.tool_run_files W maxfds num infl bss thr adj clip ty name = Ok None
+      | Some t => exists outs,
+          MergeToolFile.tool_run_files W maxfds num infl bss thr adj clip ty name = Ok (Some (t, rows_spec table outs)) /\
+          Forall2 (MergeToolFile.out_ok_orig num wl thr adj clip) table outs
+      end)
+   \/ (chrom_table (all_names files) files [] = Err 1 /\
+       MergeToolFile.tool_run_files W maxfds num infl bss thr adj clip ty name = Err 1 /\ ~ MergeToolFile.sizes_agree wl))).
+Check (C15_tool_files_sizes_agree : forall W maxfds num infl wl bss thr adj clip ty name,
+  0 < W -> (2 <= maxfds)%nat -> Forall2 MergeToolFile.written wl bss ->
+  Forall (fun w => MergeToolFile.zero_only_at_boundary (MergeToolFile.wi_sizes w) (MergeToolFile.wi_inp w)) wl ->
+  MergeToolFile.sizes_agree wl ->
+  exists table,
+    chrom_table (all_names (MergeToolFile.read_files num wl)) (MergeToolFile.read_files num wl) [] = Ok table /\
+    (forall w c, In w wl -> In c (map fst (MergeToolFile.wi_inp w)) -> bt_has c table = true) /\
+    match detect_output ty name with
+    | None => MergeToolFile.tool_run_files W maxfds num infl bss thr adj clip ty name = Ok None
+    | Some t => exists outs,
+        MergeToolFile.tool_run_files W maxfds num infl bss thr adj clip ty name = Ok (Some (t, rows_spec table outs)) /\
+        Forall2 (MergeToolFile.out_ok_orig num wl thr adj clip) table outs
+    end).
+Check (eq_refl : MergeToolFile.conv = fun (num : N -> Z) (v : BigWigWrite.value) =>
+  mkV (BigWigWrite.v_start v) (BigWigWrite.v_end v) (num (BigWigWrite.v_bits v))).
+Check (eq_refl : MergeToolFile.file_chrom = fun num infl bs i ci =>
+  match BBIRead.bw_interval infl bs i (BBIRead.ci_name ci) 0 (BBIRead.ci_len ci) with
+  | Ok vs => Ok (BBIRead.ci_name ci, BBIRead.ci_len ci, map (MergeToolFile.conv num) vs)
+  | Err c => Err c | Panic => Panic | Fuel => Fuel end).
+Check (eq_refl : MergeToolFile.file_view = fun num infl bs =>
+  match BBIRead.read_info bs with
+  | Ok i => BigWigWrite.mapM (MergeToolFile.file_chrom num infl bs i) (BBIRead.i_chroms i)
+  | Err c => Err c | Panic => Panic | Fuel => Fuel end).
+Check (eq_refl : MergeToolFile.tool_inputs_of_files = fun num infl bss => BigWigWrite.mapM (MergeToolFile.file_view num infl) bss).
+Check (eq_refl : MergeToolFile.tool_run_files = fun W maxfds num infl bss thr adj clip ty name =>
+  match MergeToolFile.tool_inputs_of_files num infl bss with
+  | Ok files => tool_run W maxfds files thr adj clip ty name
+  | Err c => Err c | Panic => Panic | Fuel => Fuel end).
+Check (eq_refl : MergeToolFile.written = fun w bs =>
+  BigWigFileRoundTrip.opts_ok (MergeToolFile.wi_opts w) /\
+  BigWigFileRoundTrip.input_ok (MergeToolFile.wi_sizes w) (MergeToolFile.wi_inp w) /\ Nlen bs < RTreeCodec.U64 /\
+  (BigWigWrite.bw_write (MergeToolFile.wi_fp w) (MergeToolFile.wi_opts w) (MergeToolFile.wi_sizes w) (MergeToolFile.wi_inp w) = Ok bs \/
+   BigWigWrite.bw_write_multipass (MergeToolFile.wi_fp w) (MergeToolFile.wi_opts w) (MergeToolFile.wi_sizes w) (MergeToolFile.wi_inp w) = Ok bs)).
+Check (eq_refl : MergeToolFile.zero_only_at_boundary = fun sizes (inp : list BigWigWrite.item) =>
+  forall c, In c (map fst inp) ->
+    Forall (fun v : BigWigWrite.value => BigWigWrite.v_start v = BigWigWrite.v_end v ->
+              BigWigQuery.boundary_zero (BigWigFileChroms.len_of sizes c) v = true) (BigWigFileInput.vals_of inp c)).
+Check (eq_refl : MergeToolFile.sizes_agree = fun wl =>
+  forall w1 w2 c, In w1 wl -> In w2 wl -> In c (map fst (MergeToolFile.wi_inp w1)) -> In c (map fst (MergeToolFile.wi_inp w2)) ->
+    BigWigFileChroms.len_of (MergeToolFile.wi_sizes w1) c = BigWigFileChroms.len_of (MergeToolFile.wi_sizes w2) c).
+Check (eq_refl : MergeToolFile.orig_chrom = fun num sizes inp c =>
+  (c, BigWigFileChroms.len_of sizes c, map (MergeToolFile.conv num) (BigWigFileInput.vals_of inp c))).
+Check (eq_refl : MergeToolFile.read_chrom = fun num sizes inp c =>
+  (c, BigWigFileChroms.len_of sizes c,
+   map (MergeToolFile.conv num) (filter (fun v => negb (BigWigQuery.boundary_zero (BigWigFileChroms.len_of sizes c) v)) (BigWigFileInput.vals_of inp c)))).
+Check (eq_refl : MergeToolFile.orig_file = fun num sizes (inp : list BigWigWrite.item) =>
+  map (MergeToolFile.orig_chrom num sizes inp) (BigWigFileInput.first_app (map fst inp))).
+Check (eq_refl : MergeToolFile.read_file = fun num sizes (inp : list BigWigWrite.item) =>
+  map (MergeToolFile.read_chrom num sizes inp) (BigWigFileInput.first_app (map fst inp))).
+Check (eq_refl : MergeToolFile.orig_files = fun num wl =>
+  map (fun w => MergeToolFile.orig_file num (MergeToolFile.wi_sizes w) (MergeToolFile.wi_inp w)) wl).
+Check (eq_refl : MergeToolFile.read_files = fun num wl =>
+  map (fun w => MergeToolFile.read_file num (MergeToolFile.wi_sizes w) (MergeToolFile.wi_inp w)) wl).
+Check (eq_refl : MergeToolFile.expected_of_inputs = fun num wl nm thr adj clip x =>
+  tool_expected (chrom_inputs nm (MergeToolFile.orig_files num wl)) thr adj clip x).
+Check (eq_refl : MergeToolFile.out_ok_orig = fun num wl thr adj clip (e : chrom_entry) (out : list value) =>
+  sorted_from 0 out /\ forall x, sig out x = MergeToolFile.expected_of_inputs num wl (fst (fst e)) thr adj clip x).
+End PinC15File.
